@@ -6,7 +6,7 @@
    the rows gives back exactly sA and sB. *)
 From Coq Require Import QArith ZArith List Bool Arith.
 From LV Require Import Align.DP Align.DPProofs Align.ValidProofs Align.Calign Align.CalignProofs
-  Align.Malign Align.MalignProofs Align.WeProofs.
+  Align.Malign Align.MalignProofs Align.WeProofs Align.PairwiseIpa.
 Import ListNotations.
 Local Open Scope nat_scope.
 
@@ -127,6 +127,26 @@ Proof.
     end (we_align_total A B sc gap) (we_align_valid A B sc gap)).
 Qed.
 Print Assumptions C01_we_align.
+
+(* IPA-string-level entry point (Pairwise.align): the class-level rows are mapped back onto the IPA
+   tokens with class2tokens (the model proved under C14).  If the class-level rows are a valid
+   alignment of the class strings (C01_calign_align_pair), there is one class per token
+   (C14_tokens2class_length), no token is the gap symbol and no class is a gap class
+   (C14_shipped_classes_not_gap), then the IPA-level rows have equal length, no column holds two
+   gaps, and de-gapping gives back exactly the tokens. *)
+Theorem C01_pairwise_ipa_level :
+  forall (a b : list (option Z)) (clA clB : list Z) (tokA tokB : list SeqCommon.token),
+    valid_aln a b clA clB ->
+    length clA = length tokA -> length clB = length tokB ->
+    ~ In gapc tokA -> ~ In gapc tokB ->
+    (forall c, In c clA \/ In c clB -> Token2Class.is_gap_class (tk c) = false) ->
+    let ra := ClassTokens.class2tokens gapc tokA (render a) in
+    let rb := ClassTokens.class2tokens gapc tokB (render b) in
+    length ra = length rb /\
+    (forall k, k < length ra -> ~ (nth k ra [] = gapc /\ nth k rb [] = gapc)) /\
+    ClassTokens.degap gapc ra = tokA /\ ClassTokens.degap gapc rb = tokB.
+Proof. exact ipa_alignment_valid. Qed.
+Print Assumptions C01_pairwise_ipa_level.
 
 (* the checker that runs on implementation outputs decides validity *)
 Theorem C01_checker_sound :
